@@ -62,6 +62,7 @@ class Outer:
 class Holder:
     a: Any
     b: Any = None
+    c: Any = field(default_factory=lambda: [5, 6])
 
 
 @dataclass(frozen=True)
@@ -132,7 +133,7 @@ def evaluate(ctx, obj, info, tags=()):
 
 def run(ctx):
     ctx.rule = (
-        "TLC: Holder(a, b) over 17 kinds of leaf (incl. classes and enums nested two and three levels deep) + lists/tuples of them (3025 values), invariant EvaluatesBack with the open "
+        "TLC: Holder(a, b) over 17 kinds of leaf (incl. classes and enums nested two and three levels deep) + lists/tuples of them (3190 values), invariant EvaluatesBack with the open "
         "findings excused by selectors. Real code: each value built from real classes, rendered by PycodeSerializer, exec()ed "
         "in a fresh namespace and compared with the original; model zoo + frozen/tuple/dict models. A case is a distinct value."
     )
